@@ -151,7 +151,10 @@ func genC06World(r *core.Rng) (*world.Project, []string) {
 				ifs := e.Sub("interfaces")
 				for j, n := range names {
 					ic := ifs.Sub(n)
-					if decl := q.FindIface(n); decl != nil && decl.XRefPath != "" && r.Chance(2, 3) {
+					if decl := q.FindIface(n); decl != nil && decl.XRefPath != "" && placement != "inpkg" && r.Chance(2, 3) {
+						// (not with in-package non-test output: a mock whose parameter type was replaced
+						// no longer satisfies matryer's `var _ Iface = &Mock{}` line, the package stops
+						// compiling and the re-run fails at loading — a C01/C13 matter, not idempotence)
 						// one source type replaced by two different targets, in two output files
 						feats = append(feats, "replace-type-two-targets")
 						var lst []any
